@@ -281,6 +281,83 @@ func runC13(c *Ctx, r *Report) {
 	importRules(c, r, "C18", []string{"R-C18.7"}, "R-C13.10", 0)
 	r.Doc("R-C13.11", "no structure that holds a lock is copied (adopted from C14: a method on a copy locks the copy's lock and excludes nobody)")
 	importRules(c, r, "C14", []string{"R-C14.9"}, "R-C13.11")
+	r.Doc("R-C13.12", "a view of the log is taken in one critical section: no method of the log composes its result from two or more separately locked reads of the same log (an append or merge completing in between yields heads of one instant with values of another — a snapshot no state of the log ever matched)")
+	{
+		logT := p.Named("", "IPFSLog")
+		exempt := map[string]string{"ToString": "a rendering for humans; the properties say nothing about it"}
+		nview := 0
+		for _, fn := range p.Fns {
+			if fn.Orig != nil || fn.Obj == nil || fn.Body == nil || fn.Decl == nil || fn.Decl.Recv == nil || fn.Pkg.PkgPath != p.Mod {
+				continue
+			}
+			sig := fn.Obj.Type().(*types.Signature)
+			if namedOf(sig.Recv().Type()) != logT || len(fn.Decl.Recv.List) != 1 || len(fn.Decl.Recv.List[0].Names) != 1 {
+				continue
+			}
+			recv := fn.Pkg.TypesInfo.Defs[fn.Decl.Recv.List[0].Names[0]]
+			// separately locked reads: calls on the receiver to methods that take the log's lock themselves, plus
+			// the function's own locked section(s)
+			var parts []string
+			own := 0
+			walkNoLit(fn.Body, func(n ast.Node) bool {
+				call, ok := n.(*ast.CallExpr)
+				if !ok {
+					return true
+				}
+				se, ok := ast.Unparen(call.Fun).(*ast.SelectorExpr)
+				if !ok {
+					return true
+				}
+				cf := p.Callee(fn, call)
+				if cf == nil {
+					return true
+				}
+				if (cf.Name() == "RLock" || cf.Name() == "Lock") && cf.Pkg() != nil && cf.Pkg().Path() == "sync" {
+					if v, base := p.FieldSel(fn, se.X); v != nil && v.Name() == "lock" {
+						if id, ok := ast.Unparen(base).(*ast.Ident); ok && p.ObjOf(fn, id) == recv {
+							own++
+						}
+					}
+					return true
+				}
+				id, ok := ast.Unparen(se.X).(*ast.Ident)
+				if !ok || p.ObjOf(fn, id) != recv {
+					return true
+				}
+				callee := p.ByObj[cf]
+				if callee == nil {
+					return true
+				}
+				for _, a := range le.acqs[orig(callee)] {
+					if a.Class == "IPFSLog.lock" {
+						parts = append(parts, cf.Name()+"()")
+						break
+					}
+				}
+				return true
+			})
+			total := len(parts) + own
+			if total < 2 && len(parts) == 0 {
+				continue
+			}
+			nview++
+			if why, ok := exempt[fn.Obj.Name()]; ok {
+				r.List("%s composes its result from %d separately locked reads: %s", fn.Name, total, why)
+				continue
+			}
+			what := strings.Join(parts, ", ")
+			if own > 0 {
+				if what != "" {
+					what += ", and "
+				}
+				what += fmt.Sprintf("%d locked section(s) of its own", own)
+			}
+			r.Check(total < 2, "R-C13.12", r.Key("R-C13.12", fn, "one-critical-section", ""), fn.Body.Pos(),
+				fn.Name+" reads the log in one critical section",
+				fmt.Sprintf("%s composes its result from %d separately locked reads of the log (%s): an append, a merge or an identity change that completes between them gives parts of two different states — a snapshot whose values are newer than its heads rebuilds to a log whose newest entries are unreachable; a clock id read before the lock is taken again overwrites a newer one", fn.Name, total, what))
+		}
+		r.Floor("R-C13.12", "methods of the log that call a self-locking method of the same log", nview, 1)
+	}
 	r.Doc("R-C13.9", "lock-order graph between lock classes is acyclic; no write re-acquisition of a held lock")
 
 	r.Doc("control", "engine positive/negative controls analysed on every run")
